@@ -174,7 +174,9 @@ pub struct Glue {
     pub notes: Vec<String>,
 }
 
-pub fn emit(an: &Analysis, wit: &str, world: &str, opts_json: &str) -> Glue {
+const C08: &str = "::c08_host";
+
+pub fn emit(an: &Analysis, wit: &str, world: &str, opts_json: &str, async_mode: bool) -> Glue {
     let mut o = String::new();
     let mut notes = vec![];
     writeln!(o, "// generated by rsguest: echo machine derived from the syntax of the bindings").unwrap();
@@ -217,6 +219,11 @@ pub fn emit(an: &Analysis, wit: &str, world: &str, opts_json: &str) -> Glue {
             ordinal += 1;
             writeln!(o, "        {} {{", sig.to_token_stream()).unwrap();
             writeln!(o, "            obs::enter({ordinal});").unwrap();
+            let is_async_fn = sig.asyncness.is_some();
+            if is_async_fn && async_mode {
+                // suspension points chosen by the host script (C08): before the arguments are observed ...
+                writeln!(o, "            for _ in 0..{C08}::guest::yields(0) {{ ::wit_bindgen::yield_async().await; }}").unwrap();
+            }
             if is_res {
                 crate::emit_res::emit_method_prologue(an, t, recv, &mut o);
             }
@@ -228,6 +235,10 @@ pub fn emit(an: &Analysis, wit: &str, world: &str, opts_json: &str) -> Glue {
             writeln!(o, "            let verif_ret = obs::build(&verif_script, &verif_arena);").unwrap();
             if !an.handles.is_empty() {
                 crate::emit_res::emit_dispose_args(&args, &mut o);
+            }
+            if is_async_fn && async_mode {
+                // ... and after the result has been built (the result is then held across the suspension)
+                writeln!(o, "            for _ in 0..{C08}::guest::yields(1) {{ ::wit_bindgen::yield_async().await; }}").unwrap();
             }
             writeln!(o, "            verif_ret").unwrap();
             writeln!(o, "        }}").unwrap();
@@ -244,7 +255,22 @@ pub fn emit(an: &Analysis, wit: &str, world: &str, opts_json: &str) -> Glue {
         let recv = has_receiver(&w.sig);
         let nargs = w.sig.inputs.iter().filter(|a| matches!(a, syn::FnArg::Typed(_))).count();
         let name = format!("drive_{k}");
-        writeln!(o, "fn {name}() {{").unwrap();
+        if w.is_async {
+            // async-lowered import (C08): one async body, run either by `block_on` or as a task
+            // (`start_task` + callbacks driven by the mock host)
+            writeln!(o, "fn {name}() {{ ::wit_bindgen::rt::async_support::block_on({name}_body()) }}").unwrap();
+            writeln!(o, "fn {name}_task() -> u32 {{").unwrap();
+            writeln!(o, "    ::wit_bindgen::rt::async_support::start_task(async move {{").unwrap();
+            writeln!(o, "        let verif_guard = ::wit_bindgen::rt::async_support::TaskCancelOnDrop::new();").unwrap();
+            writeln!(o, "        {name}_body().await;").unwrap();
+            writeln!(o, "        {C08}::guest::driver_task_return();").unwrap();
+            writeln!(o, "        verif_guard.forget();").unwrap();
+            writeln!(o, "    }}) as u32").unwrap();
+            writeln!(o, "}}").unwrap();
+            writeln!(o, "async fn {name}_body() {{").unwrap();
+        } else {
+            writeln!(o, "fn {name}() {{").unwrap();
+        }
         writeln!(o, "    let arena = obs::Arena::new();").unwrap();
         let callee = match &w.kind {
             WrapperKind::Free => root_path(&w.path, &w.sig.ident.to_string()),
@@ -263,7 +289,7 @@ pub fn emit(an: &Analysis, wit: &str, world: &str, opts_json: &str) -> Glue {
             writeln!(o, "    let a{i} = obs::build(&s{i}, &arena);").unwrap();
             call_args.push(format!("a{i}"));
         }
-        writeln!(o, "    let r = {callee}({});", call_args.join(", ")).unwrap();
+        writeln!(o, "    let r = {callee}({}){};", call_args.join(", "), if w.is_async { ".await" } else { "" }).unwrap();
         writeln!(o, "    obs::result(&r);").unwrap();
         if !an.handles.is_empty() {
             writeln!(o, "    obs::dispose(r);").unwrap();
@@ -293,7 +319,7 @@ pub fn emit(an: &Analysis, wit: &str, world: &str, opts_json: &str) -> Glue {
         writeln!(o, "unsafe extern \"C\" fn imp_{k}({}){ret} {{", params.join(", ")).unwrap();
         let vals: Vec<String> = i.params.iter().enumerate().map(|(j, s)| format!("conv::{}(a{j})", s.from())).collect();
         writeln!(o, "    let flat: [CoreVal; {}] = [{}];", vals.len(), vals.join(", ")).unwrap();
-        writeln!(o, "    let r = {HOST}::import_called({k}, &flat);").unwrap();
+        writeln!(o, "    let r = {}::import_called({k}, &flat);", if async_mode { C08 } else { HOST }).unwrap();
         if let Some(s) = i.results.first() {
             writeln!(o, "    conv::{}(&r.unwrap_or(CoreVal::I64(0)))", s.to()).unwrap();
         }
@@ -312,6 +338,34 @@ pub fn emit(an: &Analysis, wit: &str, world: &str, opts_json: &str) -> Glue {
         writeln!(o, "    ImportEntry {{ link: {:?}, params: &[{}], results: &[{}], driver: {d} }},", i.link, slots(&i.params), slots(&i.results)).unwrap();
     }
     writeln!(o, "];").unwrap();
+    if async_mode {
+        for (k, name) in an.callbacks.iter().enumerate() {
+            writeln!(o, "unsafe fn call_cb_{k}(e0: u32, e1: u32, e2: u32) -> u32 {{").unwrap();
+            writeln!(o, "    unsafe extern \"C\" {{ #[link_name = {name:?}] fn f(a: u32, b: u32, c: u32) -> u32; }}").unwrap();
+            writeln!(o, "    f(e0, e1, e2)").unwrap();
+            writeln!(o, "}}").unwrap();
+        }
+        writeln!(o, "unsafe fn rt_callback(e0: u32, e1: u32, e2: u32) -> u32 {{ ::wit_bindgen::rt::async_support::callback(e0, e1, e2) }}").unwrap();
+        writeln!(o, "pub static ASYNC_TABLES: {C08}::AsyncTables = {C08}::AsyncTables {{").unwrap();
+        writeln!(o, "    callbacks: &[").unwrap();
+        for (k, name) in an.callbacks.iter().enumerate() {
+            writeln!(o, "        ({name:?}, call_cb_{k}),").unwrap();
+        }
+        writeln!(o, "    ],").unwrap();
+        writeln!(o, "    task_drivers: &[").unwrap();
+        for i in an.imports.iter() {
+            if let Some(w) = i.wrapper {
+                if an.wrappers[w].is_async {
+                    if let Some(d) = &driver_of[w] {
+                        writeln!(o, "        ({:?}, {d}_task),", i.link).unwrap();
+                    }
+                }
+            }
+        }
+        writeln!(o, "    ],").unwrap();
+        writeln!(o, "    rt_callback,").unwrap();
+        writeln!(o, "}};").unwrap();
+    }
     let hooks = crate::emit_res::hooks_expr(an);
     writeln!(
         o,
